@@ -37,6 +37,20 @@ func Open(path string) (*FreeList, error) {
 	if err != nil {
 		return nil, err
 	}
+	// A crash during a flush can leave a partial entry at the end of the file.
+	// Every entry appended after it would be misread, and GC, which fails on
+	// a partial entry, would never get past it, so cut it off.
+	fi, err := file.Stat()
+	if err != nil {
+		file.Close()
+		return nil, err
+	}
+	if partial := fi.Size() % (types.OffBytesLen + types.SizeBytesLen); partial != 0 {
+		if err = file.Truncate(fi.Size() - partial); err != nil {
+			file.Close()
+			return nil, err
+		}
+	}
 	return &FreeList{
 		file:      file,
 		writer:    bufio.NewWriterSize(file, blockBufferSize),
